@@ -290,7 +290,8 @@ def r06_4(ctx):
     (ctx.ok(construct, f.loc()) if gate else ctx.bad(construct, "the early `not in (INT, HEX, FLOAT)` pass-through changed", f.loc()))
     base = [n for n in ast.walk(f.node) if isinstance(n, ast.Assign) and ast.unparse(n.targets[0]) == "base"]
     construct = "check_valid/base 10 for INT else 16"
-    ok = bool(base) and ast.unparse(base[0].value).replace(" ", "") in ("10ifsym.orig_type==INTelse16", "16ifsym.orig_type==HEXelse10")
+    from .common import expand_locals
+    ok = bool(base) and expand_locals(f.node, base[0].value).replace(" ", "") in ("10ifsym.orig_type==INTelse16", "16ifsym.orig_type==HEXelse10")
     (ctx.ok(construct, f.loc(base[0])) if ok else ctx.bad(construct, "base selection changed", f.loc()))
 
 
